@@ -200,6 +200,16 @@ func runC18(c *Ctx) {
 		r := mon.NewRng(mon.Hash(uint64(c.Seed), uint64(pi), 0xC18))
 		mem, io := tinycpm.New()
 		cpu := &z80.CPU{Memory: mem, IO: io}
+		if pi%4 >= 2 && c.R.Violations() == 0 {
+			directRunMu.Lock()
+			directRun[cpu] = true
+			directRunMu.Unlock()
+			defer func() {
+				directRunMu.Lock()
+				delete(directRun, cpu)
+				directRunMu.Unlock()
+			}()
+		}
 		// a second machine configured while this one is alive: its writer and logger
 		// must never see this machine's traffic
 		_, otherIO := tinycpm.New()
@@ -212,12 +222,33 @@ func runC18(c *Ctx) {
 		}
 		for round := 0; round < nrounds; round++ {
 			p := genC18(r, 4096)
-			for i, b := range p.Image {
-				mem.Set(0x0100+uint16(i), b)
+			swapMachine := round == 1 && pi%6 == 3
+			if !swapMachine {
+				for i, b := range p.Image {
+					mem.Set(0x0100+uint16(i), b)
+				}
 			}
 			var out, warn bytes.Buffer
-			io.SetStdout(&out)
+			if pi%2 == 1 {
+				// a plain io.Writer (no WriteByte, no Flush): every console byte must have
+				// reached it by the time the run has ended
+				io.SetStdout(plainWriter{&out})
+			} else {
+				io.SetStdout(&out)
+			}
 			io.SetWarnLogger(log.New(&warn, "[W]", 0))
+			// second round on a machine swapped in under the same CPU object, driven by Step
+			stepDriven := false
+			if swapMachine {
+				mem, io = tinycpm.New()
+				for i, b := range p.Image {
+					mem.Set(0x0100+uint16(i), b)
+				}
+				io.SetStdout(plainWriter{&out})
+				io.SetWarnLogger(log.New(&warn, "[W]", 0))
+				cpu.Memory, cpu.IO = mem, io
+				stepDriven = true
+			}
 			otherIO.SetStdout(&otherOut)
 			otherIO.SetWarnLogger(log.New(&otherWarn, "[O]", 0))
 			cpu.States = z80.States{SPR: z80.SPR{PC: 0x0100}}
@@ -240,7 +271,11 @@ func runC18(c *Ctx) {
 				for steps = 0; steps < 64; steps++ {
 					// bounded by a logical budget: a context that is cancelled by a Step counter is
 					// not available, so Run is guarded by the breakpoint protocol and the final check
-					err = runBounded(cpu, 200000)
+					if stepDriven {
+						err = stepBounded(cpu, 200000)
+					} else {
+						err = runBounded(cpu, 200000)
+					}
 					if err != z80.ErrBreakPoint {
 						return
 					}
@@ -276,6 +311,12 @@ func runC18(c *Ctx) {
 			switch {
 			case bad != "":
 			case pan != nil:
+				if _, isS := pan.(errStuck); isS {
+					c.R.Inconclusive(fmt.Sprintf("C18 program %d: Run on the unwrapped machine still going after 20 s", pi))
+					bad = ""
+					pan = nil
+					break
+				}
 				if _, isB := pan.(errBudget); isB {
 					bad = "the run does not end (Step budget exhausted): console call does not return or the string terminator is not found"
 				} else {
@@ -427,17 +468,59 @@ func runC18(c *Ctx) {
 	c.R.Set("warning_lines_seen", warnsSeen)
 	c.R.Set("unsupported_function_calls_recorded", unsupported)
 	c.R.Set("exhaustive", false)
-	c.R.Set("rule", "generated programs of 1..12 mixed calls on tinycpm (as imported from /repo): function 2 with every E value incl. '$', function 9 with strings of length 0..4096 over every byte value except '$' (long strings contain all 255 values; 1/3 high bytes) at arbitrary addresses incl. straddling 256-byte pages, OUT (n!=0),A and IN A,(n) (must warn, no console byte), an unsupported function number only as the last call (recorded, no verdict), then JP 0; BreakPoints on every call's return address: SP restored, the caller's code intact; the writer must receive exactly the concatenation in program order, warning lines only for non-console port traffic, the run must end halted at FF03; every third machine then gets a second program loaded and run on the same CPU object; a second tinycpm machine configured alongside must see none of the traffic. A sample of programs is also written as zexdoc.cim / zexall.cim and run through the BUILT cmd/zexdoc binary (real stdout, stderr, exit status). Distinct = distinct (program, number of calls, console length); every program makes at least one call")
+	c.R.Set("rule", "generated programs of 1..12 mixed calls on tinycpm (as imported from /repo): function 2 with every E value incl. '$', function 9 with strings of length 0..4096 over every byte value except '$' (long strings contain all 255 values; 1/3 high bytes) at arbitrary addresses incl. straddling 256-byte pages, OUT (n!=0),A and IN A,(n) (must warn, no console byte), an unsupported function number only as the last call (recorded, no verdict), then JP 0; BreakPoints on every call's return address: SP restored, the caller's code intact; the writer must receive exactly the concatenation in program order, warning lines only for non-console port traffic, the run must end halted at FF03; every third machine then gets a second program loaded and run on the same CPU object (sometimes on a fresh machine swapped in under that CPU and driven by Step); half of the machines write to a plain io.Writer without WriteByte/Flush; a second tinycpm machine configured alongside must see none of the traffic. A sample of programs is also written as zexdoc.cim / zexall.cim and run through the BUILT cmd/zexdoc binary (real stdout, stderr, exit status). Distinct = distinct (program, number of calls, console length); every program makes at least one call")
 	c.R.Assume("unsupported BDOS function numbers have no specified outcome")
 }
 
 type errBudget struct{}
+type errStuck struct{}
+
+// directRun marks CPUs whose Run calls get the machine's memory unwrapped.
+var directRun = map[*z80.CPU]bool{}
+var directRunMu sync.Mutex
+
+// plainWriter hides every method of the underlying buffer except Write.
+type plainWriter struct{ w *bytes.Buffer }
+
+func (p plainWriter) Write(b []byte) (int, error) { return p.w.Write(b) }
+
+// stepBounded drives the CPU with Step under Run's stop rule (C08 shows the two
+// to be the same) with a Step budget.
+func stepBounded(cpu *z80.CPU, maxSteps int) error {
+	cpu.HALT = false
+	for i := 0; i < maxSteps; i++ {
+		cpu.Step()
+		if cpu.BreakPoints != nil {
+			if _, ok := cpu.BreakPoints[cpu.PC]; ok {
+				return z80.ErrBreakPoint
+			}
+		}
+		if cpu.HALT {
+			return nil
+		}
+	}
+	panic(errBudget{})
+}
 
 // runBounded is cpu.Run with a logical Step budget enforced through the
 // memory interface is not possible on tinycpm.Memory (not ours), so it drives
 // Step under the stop rule of C08 (which C08 shows to be what Run does) when
 // the budget matters, and uses Run itself for the common path.
 func runBounded(cpu *z80.CPU, maxSteps int) error {
+	directRunMu.Lock()
+	direct := directRun[cpu]
+	directRunMu.Unlock()
+	if direct {
+		// tinycpm.Memory handed to Run as it is (no wrapper hiding its type); only a
+		// generous wall-clock guard is possible here and its firing is inconclusive
+		ctx, cancel := context.WithTimeout(context.Background(), 20*time.Second)
+		defer cancel()
+		err := cpu.Run(ctx)
+		if err == context.DeadlineExceeded {
+			panic(errStuck{})
+		}
+		return err
+	}
 	// Use Run via a watchdog memory wrapper
 	w := &budgetMem{inner: cpu.Memory, left: maxSteps * 6}
 	cpu.Memory = w
